@@ -298,6 +298,52 @@ theorem C18_history_bits (c : Cfg) (hv : c.valid = true) (cs : List (Opt × Opti
     (c.calls (triCalls cs)).positive o.flag = replay (c.positive o.flag) (requestsFor o cs) := by
   rw [← abs_get, C18_history c hv, C18_history_switches (abs c) cs hro hno o, abs_get]
 
+/-! ### inversions from several callers: only how often counts, not in which order
+
+On a mutex-enabled stack the calls of several goroutines take effect one after the other, in an order nobody
+controls (`toggleOpt` runs under the lock). The next three theorems say that for calls *without an argument* the
+order is immaterial: an option ends where it started exactly when it was inverted an even number of times. The
+harness's `stress -toggles` rounds (extra step of the C18 check) test exactly this equation on the real code. -/
+
+/-- `n` inversions in a row -/
+theorem replay_inversions (b : Bool) (rs : List (Option Bool)) (h : ∀ r ∈ rs, r = none) :
+    replay b rs = (b != (rs.length % 2 == 1)) := by
+  induction rs generalizing b with
+  | nil => simp [replay]
+  | cons r rest ih =>
+    have hr : r = none := h r (List.mem_cons_self ..)
+    subst hr
+    rw [replay, ih _ (fun r hr => h r (List.mem_cons_of_mem _ hr))]
+    simp only [Option.getD_none, List.length_cons]
+    have hpar : ((rest.length + 1) % 2 == 1) = !(rest.length % 2 == 1) := by
+      rcases Nat.mod_two_eq_zero_or_one rest.length with h0 | h1
+      · have : (rest.length + 1) % 2 = 1 := by omega
+        simp [h0, this]
+      · have : (rest.length + 1) % 2 = 0 := by omega
+        simp [h1, this]
+    rw [hpar]; cases b <;> cases (rest.length % 2 == 1) <;> rfl
+
+/-- a history that consists of inversions only (no argument; read-only neither set nor addressed): every option
+stands opposite to where it stood exactly when the number of inversions addressed to it is odd -/
+theorem C18_inversions_parity (c : Cfg) (hv : c.valid = true) (cs : List (Opt × Option Bool)) (hro : c.readOnly = false)
+    (hno : ∀ p ∈ cs, p.1 ≠ .ronly) (hinv : ∀ p ∈ cs, p.2 = none) (o : Opt) :
+    (c.calls (triCalls cs)).positive o.flag = (c.positive o.flag != ((cs.filter (fun p => p.1 == o)).length % 2 == 1)) := by
+  rw [C18_history_bits c hv cs hro hno o, replay_inversions]
+  · simp [requestsFor]
+  · intro r hr
+    simp only [requestsFor, List.mem_map, List.mem_filter] at hr
+    obtain ⟨p, ⟨hp, _⟩, rfl⟩ := hr
+    exact hinv p hp
+
+/-- ... hence the order in which the inversions take effect does not matter: any two orders of the same calls leave
+every option in the same state -/
+theorem C18_inversions_order (c : Cfg) (hv : c.valid = true) (cs cs' : List (Opt × Option Bool)) (hp : cs.Perm cs')
+    (hro : c.readOnly = false) (hno : ∀ p ∈ cs, p.1 ≠ .ronly) (hinv : ∀ p ∈ cs, p.2 = none) (o : Opt) :
+    (c.calls (triCalls cs)).positive o.flag = (c.calls (triCalls cs')).positive o.flag := by
+  rw [C18_inversions_parity c hv cs hro hno hinv o,
+      C18_inversions_parity c hv cs' hro (fun p h => hno p (hp.mem_iff.mpr h)) (fun p h => hinv p (hp.mem_iff.mpr h)) o,
+      (hp.filter _).length_eq]
+
 /-! ## getters -/
 
 /-- each Boolean getter reports exactly its bit / field of an initialised instance -/
@@ -535,6 +581,11 @@ example : C18_sample.valid = true ∧ C18_sample.readOnly = false ∧ Gen.flag_c
     C18_sample.kind = Gen.kind_list ∧ Cfg.isMagicID ['I', 'D'] = false := by decide
 
 example : (C18_sample.calls (triCalls [(.fold, none), (.paren, some false), (.fold, none), (.fold, some true), (.fold, none)])).opt = 4 := by decide
+
+-- three callers inverting fold, paren, fold, fold (in this order or any other): fold ends opposite, paren too, the rest stays
+example : (C18_sample.calls (triCalls [(.fold, none), (.paren, none), (.fold, none), (.fold, none)])).opt =
+          (C18_sample.calls (triCalls [(.fold, none), (.fold, none), (.fold, none), (.paren, none)])).opt ∧
+          (C18_sample.calls (triCalls [(.fold, none), (.paren, none), (.fold, none), (.fold, none)])).opt = 6 := by decide
 
 example : ∀ b ∈ [LogLevel.Arg.name ['t', 'r', 'a', 'c', 'e'], .const 4, .raw 65544], lvlOf b ≠ 0 ∧ lvlOf b ≠ 65535 := by decide
 
